@@ -1,4 +1,5 @@
 import EupsModel.Lemmas.CacheInv
+import EupsModel.Lemmas.DbFile
 /-! C06 — the database reflects exactly the history of declare / undeclare / tag operations.
 Property theorems only; the model is `Model/Db.lean` (commands) under `Model/Cache.lean` (histories of
 processes: every command reads through the product cache it loads), helper lemmas in `Lemmas/`.
@@ -7,7 +8,7 @@ A *history* is any list of `WCmd`: commands of any user and flavor, each optiona
 k-th `Database` mutation, and cache-file deletions.  `runHistory (World.init nst dirs) h` is the state after
 it; `.db` is what a fresh reader of the files sees. -/
 namespace EupsModel.C06
-open EupsModel.Db EupsModel.Cache
+open EupsModel.Db EupsModel.Cache EupsModel.DbFile
 
 /-- the invariant of the database content holds after every history (crashes and cache deletions included;
 also for the pinned write-through, `fixed = false`) -/
@@ -247,6 +248,47 @@ theorem C06_assign_tag_other_stack_witness :
     (w.db.findTagged (allStacks 2) p stable L).map (·.ver) = some [49] ∧
     w.db.tagVer 0 stable p L = some [49] ∧ w.db.tagVer 1 stable p L = some [50] := by decide
 
+/-- **Refinement: the record files read back as the abstract database**, after every history.
+`runHistoryF` performs the history on version files (one block per flavor, the directory stored relative to
+the stack) and chain files (flavor ↦ version), creating a file with its first block and removing it with its
+last, by what `Database.declare / undeclare / assignTag / unassignTag` do to them (`DbFile.applyF`).  At every
+point: the files are well formed (one file per key, one block per flavor, no empty file), the world reached is
+the one of `runHistory`, and `abs` of the files holds exactly the declarations and tags of its database. -/
+theorem C06_refines (nst : Nat) (dirs : List DirEnt) (h : List WCmd) :
+    (runHistoryF nst dirs h).2 = runHistory (World.init nst dirs) h ∧
+    WFF (runHistoryF nst dirs h).1 ∧
+    SameContent (DbFile.abs (runHistoryF nst dirs h).1) (runHistory (World.init nst dirs) h).db := by
+  unfold runHistoryF runHistory
+  suffices ∀ (F : FileDb) (w : World), WFF F → SameContent (DbFile.abs F) w.db → CacheInv w →
+      (h.foldl stepF (F, w)).2 = h.foldl step w ∧ WFF (h.foldl stepF (F, w)).1 ∧
+      SameContent (DbFile.abs (h.foldl stepF (F, w)).1) (h.foldl step w).db from
+    this _ _ wff_empty (SameContent.refl _) (cacheInv_init nst dirs)
+  induction h with
+  | nil => intro F w hF hc _; exact ⟨rfl, hF, hc⟩
+  | cons c cs ih =>
+    intro F w hF hc hinv
+    simp only [List.foldl_cons]
+    have hstep : stepF (F, w) c = ((stepG true w c).trace.foldl (fun F e => applyF e F) F, step w c) := rfl
+    rw [hstep]
+    obtain ⟨h1, h2⟩ := foldl_applyF_sim (stepG true w c).trace hF hc hinv.dbinv
+    refine ih _ _ h1 ?_ (step_inv hinv c)
+    unfold step
+    rw [stepG_db_trace w hinv.dbinv c]
+    exact h2
+
+/-- **Reads on the files equal reads on the abstract database**, after every history: `Database.findProduct`
+(is (name, version, flavor) declared in the stack, with which directory and table), the tagged version of a
+chain file, and the listings (`findProducts`, `getTagAssignments`: membership in `abs`). -/
+theorem C06_refines_reads (nst : Nat) (dirs : List DirEnt) (h : List WCmd) (s : Nat) (n : Name) (v : Ver) (f : Flav)
+    (t : Tag) :
+    DbFile.findProduct (runHistoryF nst dirs h).1 s n v f = (runHistory (World.init nst dirs) h).db.findDecl s n v f ∧
+    (DbFile.abs (runHistoryF nst dirs h).1).tagVer s t n f = (runHistory (World.init nst dirs) h).db.tagVer s t n f ∧
+    (∀ d, d ∈ (DbFile.abs (runHistoryF nst dirs h).1).decls ↔ d ∈ (runHistory (World.init nst dirs) h).db.decls) ∧
+    (∀ r, r ∈ (DbFile.abs (runHistoryF nst dirs h).1).tags ↔ r ∈ (runHistory (World.init nst dirs) h).db.tags) := by
+  obtain ⟨_, hwf, hsame⟩ := C06_refines nst dirs h
+  have hku := (history_inv nst dirs h).dbinv.ku
+  exact ⟨(findProduct_eq hwf s n v f).trans (hsame.findDecl hku s n v f), hsame.tagVer hku s t n f, hsame.1, hsame.2⟩
+
 /-! ### the hypotheses are satisfiable / the statements are not vacuous -/
 
 /-- `declare p 1` in stack 0 then `declare p 2 -t beta`: two declarations and two tags come out, so the
@@ -274,5 +316,18 @@ example :
     w.db.findDecl 0 p [49] L = some ⟨0, p, [49], L, d1, .default⟩ ∧
     (stepG true w (.run 0 (.declare ⟨L, p, [50], some d2, none, false, some beta, false, false⟩) none)).out = .ok ∧
     (stepG true w (.run 0 (.undeclare ⟨L, p, some [49], none, none, false, false⟩) none)).out = .ok := by decide
+
+/-- two flavors share one version file and one chain file; undeclaring one flavor leaves the other's blocks -/
+example :
+    let p : Name := [112]; let L : Flav := [76]
+    let dirs : List DirEnt := [⟨⟨0, relDir L p [49]⟩, p⟩, ⟨⟨0, relDir generic p [49]⟩, p⟩]
+    let h : List WCmd :=
+      [.run 0 (.declare ⟨L, p, [49], some ⟨0, relDir L p [49]⟩, none, false, none, false, false⟩) none,
+       .run 0 (.declare ⟨generic, p, [49], some ⟨0, relDir generic p [49]⟩, none, false, none, false, false⟩) none]
+    let F := (runHistoryF 1 dirs h).1
+    let F' := (runHistoryF 1 dirs (h ++ [.run 0 (.undeclare ⟨L, p, some [49], none, none, false, false⟩) none])).1
+    (F.vfiles.map (fun x => x.recs.map (·.flav)), F.cfiles.map (fun x => x.recs.map (·.flav)),
+     F'.vfiles.map (fun x => x.recs.map (·.flav)), F'.cfiles.map (fun x => x.recs.map (·.flav)))
+      = ([[L, generic]], [[L, generic]], [[generic]], [[generic]]) := by decide
 
 end EupsModel.C06
